@@ -30,6 +30,8 @@ def gen_terms(task):
         it = depth3_terms(triple, W)
     elif kind == "d2c":
         return list(G.const_inner_terms(triple[:2], W, full=opts.get("full", True)))
+    elif kind == "proxy":
+        return list(G.proxy_terms(triple, W))
     return [t for t in it if canonical(t, triple, base)]
 
 
@@ -92,6 +94,9 @@ def run(rep):
     W3 = rep.pick(2, 3)
     for tr in itertools.product(sub if rep.quick else G.shapes(W3), repeat=3):
         tasks.append(("d3", W3, tr, {}))
+    # array proxies used without a cast: elements a, b of every shape pair, index of width 1 and 2, other operand of a shape subset
+    for tr in itertools.product(G.shapes(2), G.shapes(2), [(1, False), (2, False)], sub if rep.quick else G.shapes(2)):
+        tasks.append(("proxy", 2, tr, {}))
     if not rep.quick:
         for tr in itertools.product(G.shapes(3), repeat=3):
             if (3, False) in tr or (3, True) in tr:
@@ -101,7 +106,8 @@ def run(rep):
         rep.merge(part)
     rep.setcov("rule", f"every single-operator term over leaf shapes of width<={W1} (all 45 operator forms incl. constant shift/rotate "
                f"amounts, python slices, part selects past the MSB, patterns, arrays), every two-operator composition over width<={W2}, "
-               f"constant operands of every value (width<=2), and three-operator chains through reinterpreting forms; each term under ALL "
+               f"constant operands of every value (width<=2), three-operator chains through reinterpreting forms, and every single-operator form "
+               "with an uncast array proxy as either operand (width<=2); each term under ALL "
                "valuations of the leaves it reads; executed as `o.eq(term)` in a simulated comb circuit with o of exactly term.shape(). "
                "non-trivial: reference value varies with the inputs")
     rep.setcov("exhaustive", True)
